@@ -101,6 +101,8 @@ def keep(table, key, val):
 
 def check(ctx):
     repo = ctx.repo
+    from . import generic as _gen
+    _gen.language_traps(ctx, _gen.anchor_functions(repo, "C06"), "the property holds for every input, on every call")
     I = interp(repo)
     ctx.rule("OWN-1", "value returned/yielded by a public non-exempt method has an empty may-alias set "
                       "w.r.t. receiver and arguments")
